@@ -823,6 +823,31 @@ def check_propagate(ctx, before, after, included, second):
     for name, g in before.items():
         a = after[name]
         nb = len(g["anchors"])
+        # "gives a composite an anchor": an included glyph with components (with or without
+        # contours of its own) one of whose non-mark components' bases ends up with a plain
+        # anchor 'x' must carry 'x' (or numbered 'x_N', several bases) afterwards, unless it
+        # had an anchor of that name (or a longer one starting with it) to begin with
+        cats_ = (case["ufo"].get("lib") or {}).get("public.openTypeCategories") or {}
+        if name in included and g["components"] and not (cats_.get(name) == "mark" and g["anchors"]):
+            # (a glyph categorised as mark that has anchors is left alone, by design)
+            got_names = {x_["name"] for x_ in a["anchors"]}
+            for c_ in g["components"]:
+                bg = after.get(c_["base"])
+                if bg is None or any(x_["name"].startswith("_") for x_ in bg["anchors"]):
+                    continue
+                for x_ in bg["anchors"]:
+                    xn = x_["name"]
+                    if not xn or any(o_["name"].startswith(xn) for o_ in g["anchors"]):
+                        continue
+                    ctx.bump("base_anchors_expected_on_composite")
+                    if g["contours"]:
+                        ctx.bump("base_anchors_expected_on_mixed_glyph")
+                    if not any(n_ == xn or (n_.startswith(xn + "_") and n_[len(xn) + 1:].isdigit())
+                               for n_ in got_names):
+                        ctx.bad("base_anchor_not_propagated", glyph=name, base=c_["base"],
+                                anchor=xn, has_contours=bool(g["contours"]),
+                                after=sorted(got_names))
+                        break
         # anchors present before are untouched (name, position, order)
         kept = a["anchors"][:nb]
         if nb:
